@@ -219,10 +219,11 @@ class Interp:
         if "JacobiSVD" in t or "SelfAdjointEigenSolver" in t:
             kind = "svd" if "JacobiSVD" in t else "eig"
             args = [a for a in (init or {}).get("c", [])] if init else []
+            real = "complex" not in t
             if args:
                 a = self.rv(self.ev(args[0], env, depth, f))
-                return self.solve(kind, a, f, d)
-            return ("solver", kind, None)
+                return self.solve(kind, a, f, d, real)
+            return ("solver", kind, None, real)
         if re.search(r"Eigen::(Matrix|Array)<", t):
             if init is not None:
                 cs = init.get("c", [])
@@ -238,22 +239,22 @@ class Interp:
                 return ("opaque", d.get("name"))
         return ("opaque", d.get("name"))
 
-    def solve(self, kind, a, f, n):
+    def solve(self, kind, a, f, n, real):
+        """real: the solver's scalar type is real (its factors are then real orthogonal)"""
         if a[0] != "mat":
             raise Undecided("%s:%s: solver applied to %s" % (f["file"], n.get("l"), a[0]))
-        real = all(x[4] for x in a[1] if x[0] in ("u", "m"))
         if kind == "svd":
             U, V, sg = self.fresh("U"), self.fresh("V"), self.fresh("sigma")
             u = ("u", U, False, False, real)
             v = ("u", V, False, False, real)
             vec = Vec(sg, order=("desc", ()), nonneg=True)
             self.axioms.append((a[1], (u,) + vec.diag_word() + w_adjoint((v,)), "JacobiSVD: A = %s diag(%s) %s^H" % (U, sg, V)))
-            return ("solver", "svd", dict(U=("mat", (u,)), V=("mat", (v,)), s=vec))
+            return ("solver", "svd", dict(U=("mat", (u,)), V=("mat", (v,)), s=vec), real)
         Z, w = self.fresh("Z"), self.fresh("w")
         z = ("u", Z, False, False, real)
         vec = Vec(w, order=("asc", ()))
         self.axioms.append((a[1], (z,) + vec.diag_word() + w_adjoint((z,)), "SelfAdjointEigenSolver: A = %s diag(%s) %s^H" % (Z, w, Z)))
-        return ("solver", "eig", dict(Z=("mat", (z,)), w=vec))
+        return ("solver", "eig", dict(Z=("mat", (z,)), w=vec), real)
 
     # -- expressions ----------------------------------------------------------------------------------
     def rv(self, v):
@@ -270,6 +271,10 @@ class Interp:
         k = n.get("k")
         if k in PASS:
             return self.ev(n["c"][-1], env, depth, f)
+        if k == "CStyleCastExpr":
+            # (void)x and scalar casts: evaluated for their effects only
+            self.ev(n["c"][-1], env, depth, f)
+            return ("opaque", "cast")
         if k == "DeclRefExpr":
             if n.get("rk") in ("Param", "Var"):
                 if n.get("id") not in env:
@@ -360,7 +365,7 @@ class Interp:
                 a = self.rv(self.ev(args[0], env, depth, f))
                 if o[0] != "loc":
                     raise Undecided("compute on a temporary")
-                self.store[o[1]] = self.solve(val[1], a, f, n)
+                self.store[o[1]] = self.solve(val[1], a, f, n, val[3])
                 return o
             if val[2] is None:
                 raise Undecided("%s: solver read before compute" % where)
@@ -589,11 +594,10 @@ class Interp:
 
     def comparator(self, lam, where):
         node, cenv = lam[1], lam[2]
-        body = node.get("body") or next((c for c in node.get("c", []) if c.get("k") == "CompoundStmt"), None)
-        params = node.get("params") or []
-        if body is None:
-            # the plugin records lambdas as functions: find operator() by location
+        g = self.F.functions.get(node.get("mg"))
+        if g is None:
             raise Undecided("%s: comparator lambda body not available" % where)
+        body, params = g["body"], g["params"]
         rets = [s for s in _walk(body) if s.get("k") == "ReturnStmt"]
         if len(rets) != 1:
             raise Undecided("%s: comparator with %d return statements" % (where, len(rets)))
